@@ -628,7 +628,7 @@ impl Property for C16 {
         "C16"
     }
     fn rule(&self) -> &'static str {
-        "case = arbitrary module (1-4 functions, every card kind incl. 0-child kinds, empty argument lists, nested closures; unique CardIds) + history of <=40 ops (get, insert, remove, replace, swap, walk, and the law pairs insert;remove / replace;replace-back / swap;swap) whose indices are valid w.r.t. the evolving model in ~70% and invalid in a specific way otherwise (function out of range, empty path, past the end, through a leaf, huge); oracle = tree-edit model over (CardId, kind, children) with its own child-numbering table: Ok/Err must agree, successful edits must change exactly the addressed card(s), failed edits and law pairs must leave serde_json text and id-tree identical; child count / enumeration / lookup must agree for every card after every op. non-trivial = >=1 successful edit below a parent other than a composite AND >=1 failed edit; distinct by hash of decoded case"
+        "case = arbitrary module (1-4 functions, every card kind incl. 0-child kinds, empty argument lists, nested closures; unique CardIds; in a third of the cases 1-2 submodules, one of them nested, with their own functions and cards that the parent's walk and edit API must neither see nor touch) + history of <=40 ops (get, insert, remove, replace, swap, walk, and the law pairs insert;remove / replace;replace-back / swap;swap) whose indices are valid w.r.t. the evolving model in ~70% and invalid in a specific way otherwise (function out of range, empty path, past the end, through a leaf, huge); oracle = tree-edit model over (CardId, kind, children) with its own child-numbering table: Ok/Err must agree, successful edits must change exactly the addressed card(s), failed edits and law pairs must leave serde_json text and id-tree identical; child count / enumeration / lookup must agree for every card after every op. non-trivial = >=1 successful edit below a parent other than a composite AND >=1 failed edit; distinct by hash of decoded case"
     }
     fn assumptions(&self) -> Vec<String> {
         vec![
